@@ -4,7 +4,7 @@ import FeatModel.Lemmas.C11Xml
 import FeatModel.Lemmas.C11Mesh
 /-!
 C11 — the round trip `parseMeshFile ∘ printMeshFile = id` for a file that holds a root mesh
-(vertices and topology; all five supported mesh types, all sizes), and the byte-for-byte corollary
+(vertices and topology; all nine supported mesh types (shape, shape dimension, world dimension), all sizes), and the byte-for-byte corollary
 `print ∘ parse ∘ print = print`.
 
 Auxiliary lemmas live in the namespace `FeatModel.C11.RT`; the two main theorems are stated in
@@ -227,28 +227,51 @@ theorem scanMarkup_two_attr {nm k1 v1 k2 v2 : Str} (hnm : validName nm = true)
 
 /-! ## Part 3: the mesh type string -/
 
-theorem supported_cases {sh : Shape} {dim : Nat} (hs : supported sh (dim : Int) (dim : Int) = true) :
-    (sh = .hyper ∧ dim = 1) ∨ (sh = .hyper ∧ dim = 2) ∨ (sh = .hyper ∧ dim = 3) ∨
-    (sh = .simplex ∧ dim = 2) ∨ (sh = .simplex ∧ dim = 3) := by
+/-- the nine supported mesh types `(shape, shape dimension, world dimension)` -/
+theorem supported_cases {sh : Shape} {dim wdim : Nat} (hs : supported sh (dim : Int) (wdim : Int) = true) :
+    (sh = .hyper ∧ dim = 1 ∧ wdim = 1) ∨ (sh = .hyper ∧ dim = 2 ∧ wdim = 2) ∨ (sh = .hyper ∧ dim = 3 ∧ wdim = 3) ∨
+    (sh = .simplex ∧ dim = 2 ∧ wdim = 2) ∨ (sh = .simplex ∧ dim = 3 ∧ wdim = 3) ∨
+    (sh = .hyper ∧ dim = 2 ∧ wdim = 3) ∨ (sh = .simplex ∧ dim = 2 ∧ wdim = 3) ∨
+    (sh = .hyper ∧ dim = 1 ∧ wdim = 2) ∨ (sh = .hyper ∧ dim = 1 ∧ wdim = 3) := by
   cases sh <;> simp [supported] at hs <;> simp <;> omega
 
-theorem splitByColon_meshTypeStr {sh : Shape} {dim : Nat} (hs : supported sh (dim : Int) (dim : Int) = true) :
-    splitByColon (meshTypeStr sh dim) = ["conformal".toList, sh.name, showNat dim, showNat dim] := by
-  rcases supported_cases hs with ⟨rfl, rfl⟩ | ⟨rfl, rfl⟩ | ⟨rfl, rfl⟩ | ⟨rfl, rfl⟩ | ⟨rfl, rfl⟩ <;> decide
+/-- conversely: each of the nine triples is supported -/
+theorem supported_of_cases {sh : Shape} {dim wdim : Nat}
+    (h : (sh = .hyper ∧ dim = 1 ∧ wdim = 1) ∨ (sh = .hyper ∧ dim = 2 ∧ wdim = 2) ∨ (sh = .hyper ∧ dim = 3 ∧ wdim = 3) ∨
+      (sh = .simplex ∧ dim = 2 ∧ wdim = 2) ∨ (sh = .simplex ∧ dim = 3 ∧ wdim = 3) ∨
+      (sh = .hyper ∧ dim = 2 ∧ wdim = 3) ∨ (sh = .simplex ∧ dim = 2 ∧ wdim = 3) ∨
+      (sh = .hyper ∧ dim = 1 ∧ wdim = 2) ∨ (sh = .hyper ∧ dim = 1 ∧ wdim = 3)) :
+    supported sh (dim : Int) (wdim : Int) = true := by
+  rcases h with ⟨rfl, rfl, rfl⟩ | ⟨rfl, rfl, rfl⟩ | ⟨rfl, rfl, rfl⟩ | ⟨rfl, rfl, rfl⟩ | ⟨rfl, rfl, rfl⟩ |
+    ⟨rfl, rfl, rfl⟩ | ⟨rfl, rfl, rfl⟩ | ⟨rfl, rfl, rfl⟩ | ⟨rfl, rfl, rfl⟩ <;> decide
 
-theorem readInt_showNat_dim {sh : Shape} {dim : Nat} (hs : supported sh (dim : Int) (dim : Int) = true) :
-    readInt (showNat dim) = some (dim : Int) := by
-  rcases supported_cases hs with ⟨rfl, rfl⟩ | ⟨rfl, rfl⟩ | ⟨rfl, rfl⟩ | ⟨rfl, rfl⟩ | ⟨rfl, rfl⟩ <;> decide
+theorem supported_pos {sh : Shape} {dim wdim : Nat} (hs : supported sh (dim : Int) (wdim : Int) = true) :
+    0 < dim ∧ dim ≤ 3 ∧ 0 < wdim ∧ wdim ≤ 3 := by
+  rcases supported_cases hs with ⟨-, rfl, rfl⟩ | ⟨-, rfl, rfl⟩ | ⟨-, rfl, rfl⟩ | ⟨-, rfl, rfl⟩ | ⟨-, rfl, rfl⟩ |
+    ⟨-, rfl, rfl⟩ | ⟨-, rfl, rfl⟩ | ⟨-, rfl, rfl⟩ | ⟨-, rfl, rfl⟩ <;> decide
 
-theorem meshTypeStr_chars {sh : Shape} {dim : Nat} (hs : supported sh (dim : Int) (dim : Int) = true) :
-    ∀ c ∈ meshTypeStr sh dim, c ≠ '"' ∧ c ≠ '<' ∧ c ≠ '>' ∧ c ≠ '\n' ∧ isWs c = false := by
-  rcases supported_cases hs with ⟨rfl, rfl⟩ | ⟨rfl, rfl⟩ | ⟨rfl, rfl⟩ | ⟨rfl, rfl⟩ | ⟨rfl, rfl⟩ <;> decide
+theorem splitByColon_meshTypeStr {sh : Shape} {dim wdim : Nat} (hs : supported sh (dim : Int) (wdim : Int) = true) :
+    splitByColon (meshTypeStr sh dim wdim) = ["conformal".toList, sh.name, showNat dim, showNat wdim] := by
+  rcases supported_cases hs with ⟨rfl, rfl, rfl⟩ | ⟨rfl, rfl, rfl⟩ | ⟨rfl, rfl, rfl⟩ | ⟨rfl, rfl, rfl⟩ | ⟨rfl, rfl, rfl⟩ |
+    ⟨rfl, rfl, rfl⟩ | ⟨rfl, rfl, rfl⟩ | ⟨rfl, rfl, rfl⟩ | ⟨rfl, rfl, rfl⟩ <;> decide
+
+theorem readInt_showNat_dim {sh : Shape} {dim wdim : Nat} (hs : supported sh (dim : Int) (wdim : Int) = true) :
+    readInt (showNat dim) = some (dim : Int) ∧ readInt (showNat wdim) = some (wdim : Int) := by
+  rcases supported_cases hs with ⟨rfl, rfl, rfl⟩ | ⟨rfl, rfl, rfl⟩ | ⟨rfl, rfl, rfl⟩ | ⟨rfl, rfl, rfl⟩ | ⟨rfl, rfl, rfl⟩ |
+    ⟨rfl, rfl, rfl⟩ | ⟨rfl, rfl, rfl⟩ | ⟨rfl, rfl, rfl⟩ | ⟨rfl, rfl, rfl⟩ <;> decide
+
+theorem meshTypeStr_chars {sh : Shape} {dim wdim : Nat} (hs : supported sh (dim : Int) (wdim : Int) = true) :
+    ∀ c ∈ meshTypeStr sh dim wdim, c ≠ '"' ∧ c ≠ '<' ∧ c ≠ '>' ∧ c ≠ '\n' ∧ isWs c = false := by
+  rcases supported_cases hs with ⟨rfl, rfl, rfl⟩ | ⟨rfl, rfl, rfl⟩ | ⟨rfl, rfl, rfl⟩ | ⟨rfl, rfl, rfl⟩ | ⟨rfl, rfl, rfl⟩ |
+    ⟨rfl, rfl, rfl⟩ | ⟨rfl, rfl, rfl⟩ | ⟨rfl, rfl, rfl⟩ | ⟨rfl, rfl, rfl⟩ <;> decide
 
 /-! ## Part 4: stepping the scanner -/
 
-/-- parser states without chart links -/
+/-- parser states without chart links; the world dimension of the parser is the one stored in the node
+    (the parser never changes `node.wdim`) -/
 def mkSt (sh : Shape) (dim : Nat) (stack : List Frame) (node : Node) : St :=
-  { shape := sh, dim := dim, stack := stack, node := node, links := [], deduct := [], unmodelled := false }
+  { shape := sh, dim := dim, wdim := node.wdim, stack := stack, node := node, links := [], deduct := [],
+    unmodelled := false }
 
 /-- scanning `lines` (followed by anything) takes the parser from `(names, st)` to `(names', st')` -/
 def Run (lines : List Str) (names : List Str) (st : St) (names' : List Str) (st' : St) : Prop :=
@@ -385,7 +408,7 @@ theorem joinSp_showNat_ne_nil {v : List Nat} (h : v ≠ []) : joinSp (v.map show
 /-! ### the client on content rows -/
 
 theorem contentM_vert_row (sh : Shape) (dim count line : Nat) (acc : List (List Rat)) (rs : List Frame)
-    (node : Node) (v : List Rat) (hv : v.length = dim) (hc : acc.length < count) :
+    (node : Node) (v : List Rat) (hv : v.length = node.wdim) (hc : acc.length < count) :
     contentM (mkSt sh dim (Frame.verts count acc :: rs) node) line (joinSp (v.map showQ)) =
       .ok (mkSt sh dim (Frame.verts count (v :: acc) :: rs) node) := by
   have h1 : ¬ acc.length ≥ count := by omega
@@ -409,8 +432,8 @@ theorem contentM_topo_row (sh : Shape) (dim d numIdx bound count line : Nat) (ac
 
 /-- the vertex block: every printed coordinate row is pushed onto the `Vertices` frame -/
 theorem Run_vert_rows (sh : Shape) (dim count : Nat) (rs : List Frame) (node : Node) (names : List Str)
-    (hdim : 0 < dim) (rows : List (List Rat)) :
-    ∀ (acc : List (List Rat)), (∀ v ∈ rows, v.length = dim) → acc.length + rows.length ≤ count →
+    (hdim : 0 < node.wdim) (rows : List (List Rat)) :
+    ∀ (acc : List (List Rat)), (∀ v ∈ rows, v.length = node.wdim) → acc.length + rows.length ≤ count →
     Run (rows.map (fun v => sp 6 ++ joinSp (v.map showQ))) names
       (mkSt sh dim (Frame.verts count acc :: rs) node) names
       (mkSt sh dim (Frame.verts count (rows.reverse ++ acc) :: rs) node) := by
@@ -418,7 +441,7 @@ theorem Run_vert_rows (sh : Shape) (dim count : Nat) (rs : List Frame) (node : N
   | nil => intro acc _ _; exact Run.nil _ _
   | cons v rows ih =>
     intro acc hrows hcount
-    have hv : v.length = dim := hrows v (by simp)
+    have hv : v.length = node.wdim := hrows v (by simp)
     have hvne : v ≠ [] := by intro e; subst e; simp at hv; omega
     simp only [List.length_cons] at hcount
     rw [List.map_cons, List.reverse_cons, List.append_assoc, List.singleton_append]
@@ -486,8 +509,8 @@ theorem showNat_attr (n : Nat) :
     exact ⟨(tokChar_ne h).2.2.2.1, (tokChar_ne h).1, (tokChar_ne h).2.1⟩
   · exact trim_eq_self_of_noWs _ (showNat_noWs n)
 
-theorem meshTypeStr_attr {sh : Shape} {dim : Nat} (hs : supported sh (dim : Int) (dim : Int) = true) :
-    (∀ c ∈ meshTypeStr sh dim, c ≠ '"' ∧ c ≠ '<' ∧ c ≠ '>') ∧ trim (meshTypeStr sh dim) = meshTypeStr sh dim :=
+theorem meshTypeStr_attr {sh : Shape} {dim wdim : Nat} (hs : supported sh (dim : Int) (wdim : Int) = true) :
+    (∀ c ∈ meshTypeStr sh dim wdim, c ≠ '"' ∧ c ≠ '<' ∧ c ≠ '>') ∧ trim (meshTypeStr sh dim wdim) = meshTypeStr sh dim wdim :=
   ⟨fun c hc => ⟨(meshTypeStr_chars hs c hc).1, (meshTypeStr_chars hs c hc).2.1, (meshTypeStr_chars hs c hc).2.2.1⟩,
    trim_eq_self_of_noWs _ (fun c hc => (meshTypeStr_chars hs c hc).2.2.2.2)⟩
 
@@ -496,30 +519,30 @@ theorem mapInsert_lt {k k' v v' : Str} (h : strLt k k' = true) :
   simp [mapInsert, h]
 
 /-- the root line -/
-theorem scan_root_line {sh : Shape} {dim : Nat} (hs : supported sh (dim : Int) (dim : Int) = true) :
-    scanMarkup ("<FeatMeshFile version=\"1\"".toList ++ (" mesh=".toList ++ q (meshTypeStr sh dim)) ++ ">".toList) =
+theorem scan_root_line {sh : Shape} {dim wdim : Nat} (hs : supported sh (dim : Int) (wdim : Int) = true) :
+    scanMarkup ("<FeatMeshFile version=\"1\"".toList ++ (" mesh=".toList ++ q (meshTypeStr sh dim wdim)) ++ ">".toList) =
       .ok (some { name := "FeatMeshFile".toList,
-                  attrs := [("mesh".toList, meshTypeStr sh dim), ("version".toList, ['1'])],
+                  attrs := [("mesh".toList, meshTypeStr sh dim wdim), ("version".toList, ['1'])],
                   closed := false, termin := false }) := by
-  have e : "<FeatMeshFile version=\"1\"".toList ++ (" mesh=".toList ++ q (meshTypeStr sh dim)) ++ ">".toList =
+  have e : "<FeatMeshFile version=\"1\"".toList ++ (" mesh=".toList ++ q (meshTypeStr sh dim wdim)) ++ ">".toList =
       '<' :: ("FeatMeshFile".toList ++ ' ' :: ("version".toList ++ '=' :: '"' :: (['1'] ++ '"' :: ' ' ::
-        ("mesh".toList ++ '=' :: '"' :: (meshTypeStr sh dim ++ ['"', '>']))))) := by
+        ("mesh".toList ++ '=' :: '"' :: (meshTypeStr sh dim wdim ++ ['"', '>']))))) := by
     simp [q]
   rw [e, scanMarkup_two_attr (by decide) (by decide) (by decide) (by decide) (by decide)
     (meshTypeStr_attr hs).1 (meshTypeStr_attr hs).2]
   rw [mapInsert_lt (by decide)]
 
 /-- the `<Mesh …>` line -/
-theorem scan_mesh_line {sh : Shape} {dim : Nat} (hs : supported sh (dim : Int) (dim : Int) = true)
+theorem scan_mesh_line {sh : Shape} {dim wdim : Nat} (hs : supported sh (dim : Int) (wdim : Int) = true)
     (sizes : List Nat) :
-    scanMarkup ('<' :: ("Mesh type=".toList ++ q (meshTypeStr sh dim) ++ " size=".toList ++
+    scanMarkup ('<' :: ("Mesh type=".toList ++ q (meshTypeStr sh dim wdim) ++ " size=".toList ++
         q (joinSp (sizes.map showNat))) ++ ['>']) =
       .ok (some { name := "Mesh".toList,
-                  attrs := [("size".toList, joinSp (sizes.map showNat)), ("type".toList, meshTypeStr sh dim)],
+                  attrs := [("size".toList, joinSp (sizes.map showNat)), ("type".toList, meshTypeStr sh dim wdim)],
                   closed := false, termin := false }) := by
-  have e : '<' :: ("Mesh type=".toList ++ q (meshTypeStr sh dim) ++ " size=".toList ++
+  have e : '<' :: ("Mesh type=".toList ++ q (meshTypeStr sh dim wdim) ++ " size=".toList ++
         q (joinSp (sizes.map showNat))) ++ ['>'] =
-      '<' :: ("Mesh".toList ++ ' ' :: ("type".toList ++ '=' :: '"' :: (meshTypeStr sh dim ++ '"' :: ' ' ::
+      '<' :: ("Mesh".toList ++ ' ' :: ("type".toList ++ '=' :: '"' :: (meshTypeStr sh dim wdim ++ '"' :: ' ' ::
         ("size".toList ++ '=' :: '"' :: (joinSp (sizes.map showNat) ++ ['"', '>']))))) := by
     simp [q]
   rw [e, scanMarkup_two_attr (by decide) (by decide) (by decide)
@@ -542,52 +565,53 @@ theorem readIndex_sizes {sizes : List Nat} (h64 : ∀ s ∈ sizes, s < 2 ^ 64) :
     mapMOpt readIndex (sizes.map showNat) = some sizes :=
   mapMOpt_map _ _ _ (fun x hx => readIndex_showNat x (h64 x hx))
 
-theorem meshCreate_printed {sh : Shape} {dim : Nat} (hs : supported sh (dim : Int) (dim : Int) = true)
+theorem meshCreate_printed {sh : Shape} {dim wdim : Nat} (hs : supported sh (dim : Int) (wdim : Int) = true)
     (sizes : List Nat) (hlen : sizes.length = dim + 1) (h64 : ∀ s ∈ sizes, s < 2 ^ 64)
     (hzb : zeroBelow sizes = false)
-    (stack : List Frame) (node : Node) (line : Nat) :
+    (stack : List Frame) (node : Node) (hnw : node.wdim = wdim) (line : Nat) :
     meshCreate (mkSt sh dim stack node) line
-      (⟨"Mesh".toList, [("size".toList, joinSp (sizes.map showNat)), ("type".toList, meshTypeStr sh dim)],
+      (⟨"Mesh".toList, [("size".toList, joinSp (sizes.map showNat)), ("type".toList, meshTypeStr sh dim wdim)],
         false, false⟩ : Markup) =
       .ok (Frame.mesh sizes none (List.replicate dim none)) := by
-  have a1 : attrOf (⟨"Mesh".toList, [("size".toList, joinSp (sizes.map showNat)), ("type".toList, meshTypeStr sh dim)],
-        false, false⟩ : Markup) "type" = some (meshTypeStr sh dim) := by
+  have a1 : attrOf (⟨"Mesh".toList, [("size".toList, joinSp (sizes.map showNat)), ("type".toList, meshTypeStr sh dim wdim)],
+        false, false⟩ : Markup) "type" = some (meshTypeStr sh dim wdim) := by
     have h1 : strLt "type".toList "size".toList = false := by decide
     have h2 : strLt "size".toList "type".toList = true := by decide
     have h3 : strLt "type".toList "type".toList = false := by decide
     simp only [attrOf, mapFind, h1, h2, h3]; rfl
-  have a2 : attrOf (⟨"Mesh".toList, [("size".toList, joinSp (sizes.map showNat)), ("type".toList, meshTypeStr sh dim)],
+  have a2 : attrOf (⟨"Mesh".toList, [("size".toList, joinSp (sizes.map showNat)), ("type".toList, meshTypeStr sh dim wdim)],
         false, false⟩ : Markup) "size" = some (joinSp (sizes.map showNat)) := by
     have h1 : strLt "size".toList "size".toList = false := by decide
     simp only [attrOf, mapFind, h1]; rfl
   unfold meshCreate
   rw [a1, a2]
-  simp only [splitByColon_meshTypeStr hs, readInt_showNat_dim hs, mkSt, splitWs_joinSp_showNat,
-    List.length_map, hlen, readIndex_sizes h64, hzb]
+  simp only [splitByColon_meshTypeStr hs, (readInt_showNat_dim hs).1, (readInt_showNat_dim hs).2, mkSt, hnw,
+    splitWs_joinSp_showNat, List.length_map, hlen, readIndex_sizes h64, hzb]
   simp
 
 
 theorem String_ofList_toList (s : String) : String.ofList s.toList = s := by simp
 
-theorem openM_mesh {sh : Shape} {dim : Nat} (hs : supported sh (dim : Int) (dim : Int) = true)
+theorem openM_mesh {sh : Shape} {dim wdim : Nat} (hs : supported sh (dim : Int) (wdim : Int) = true)
     (sizes : List Nat) (hlen : sizes.length = dim + 1) (h64 : ∀ s ∈ sizes, s < 2 ^ 64)
     (hzb : zeroBelow sizes = false) (line : Nat) :
-    openM (mkSt sh dim [Frame.root] { mesh := none, parts := [], partitions := [] }) line
-      (⟨"Mesh".toList, [("size".toList, joinSp (sizes.map showNat)), ("type".toList, meshTypeStr sh dim)],
+    openM (mkSt sh dim [Frame.root] { mesh := none, parts := [], partitions := [], wdim := wdim }) line
+      (⟨"Mesh".toList, [("size".toList, joinSp (sizes.map showNat)), ("type".toList, meshTypeStr sh dim wdim)],
         false, false⟩ : Markup) =
       .ok (mkSt sh dim [Frame.mesh sizes none (List.replicate dim none), Frame.root]
-        { mesh := none, parts := [], partitions := [] }) := by
+        { mesh := none, parts := [], partitions := [], wdim := wdim }) := by
   have hc : checkAttribs line (specOf "Mesh")
-      [("size".toList, joinSp (sizes.map showNat)), ("type".toList, meshTypeStr sh dim)] = .ok () := by
+      [("size".toList, joinSp (sizes.map showNat)), ("type".toList, meshTypeStr sh dim wdim)] = .ok () := by
     simp [checkAttribs, specOf]
-  have hm := meshCreate_printed hs sizes hlen h64 hzb [Frame.root] { mesh := none, parts := [], partitions := [] } line
-  generalize hst : mkSt sh dim [Frame.root] { mesh := none, parts := [], partitions := [] } = st at hm ⊢
+  have hm := meshCreate_printed hs sizes hlen h64 hzb [Frame.root]
+    { mesh := none, parts := [], partitions := [], wdim := wdim } rfl line
+  generalize hst : mkSt sh dim [Frame.root] { mesh := none, parts := [], partitions := [], wdim := wdim } = st at hm ⊢
   generalize hmm : (⟨"Mesh".toList, [("size".toList, joinSp (sizes.map showNat)),
-    ("type".toList, meshTypeStr sh dim)], false, false⟩ : Markup) = m at hm ⊢
+    ("type".toList, meshTypeStr sh dim wdim)], false, false⟩ : Markup) = m at hm ⊢
   have hstack : st.stack = [Frame.root] := by rw [← hst]; rfl
   have hnode : st.node.mesh = none := by rw [← hst]; rfl
   have hn : String.ofList m.name = "Mesh" := by rw [← hmm]; exact String_ofList_toList _
-  have ha : m.attrs = [("size".toList, joinSp (sizes.map showNat)), ("type".toList, meshTypeStr sh dim)] := by
+  have ha : m.attrs = [("size".toList, joinSp (sizes.map showNat)), ("type".toList, meshTypeStr sh dim wdim)] := by
     rw [← hmm]
   have hcl : m.closed = false := by rw [← hmm]
   unfold openM
@@ -664,11 +688,11 @@ theorem closeTop_topo_frame (sh : Shape) (dim d numIdx bound count : Nat) (acc :
       .ok (mkSt sh dim (Frame.mesh sizes v (topo.set (d - 1) (some acc.reverse)) :: rs) node) := by
   simp [closeTop, mkSt, Nat.not_lt.mpr h]
 
-theorem closeTop_mesh_frame (sh : Shape) (dim : Nat) (sizes : List Nat) (vs : List (List Rat))
+theorem closeTop_mesh_frame (sh : Shape) (dim wdim : Nat) (sizes : List Nat) (vs : List (List Rat))
     (ts : List (List (List Nat))) (rs : List Frame) (line : Nat) :
     closeTop (mkSt sh dim (Frame.mesh sizes (some vs) (ts.map some) :: rs)
-        { mesh := none, parts := [], partitions := [] }) line =
-      .ok (mkSt sh dim rs { mesh := some { sizes := sizes, verts := vs, topo := ts }, parts := [], partitions := [] }) := by
+        { mesh := none, parts := [], partitions := [], wdim := wdim }) line =
+      .ok (mkSt sh dim rs { mesh := some { sizes := sizes, verts := vs, topo := ts }, parts := [], partitions := [], wdim := wdim }) := by
   simp [closeTop, mkSt, mapMOpt_id_map_some]
 
 theorem closeTop_root_frame (sh : Shape) (dim : Nat) (node : Node) (line : Nat) :
@@ -710,7 +734,7 @@ theorem final_close_line {nm : Str} (hv : validName nm = true) {st st' : St}
 
 theorem Run_vertices_block (sh : Shape) (dim : Nat) (sizes : List Nat) (topo : List (Option (List (List Nat))))
     (rs : List Frame) (node : Node) (b : Str) (below : List Str) (verts : List (List Rat))
-    (hdim : 0 < dim) (hlen : verts.length = sizes.getD 0 0) (hrows : ∀ v ∈ verts, v.length = dim) :
+    (hdim : 0 < node.wdim) (hlen : verts.length = sizes.getD 0 0) (hrows : ∀ v ∈ verts, v.length = node.wdim) :
     Run ([sp 4 ++ "<Vertices>".toList] ++ verts.map (fun v => sp 6 ++ joinSp (v.map showQ)) ++
           [sp 4 ++ "</Vertices>".toList]) (b :: below)
       (mkSt sh dim (Frame.mesh sizes none topo :: rs) node) (b :: below)
@@ -872,8 +896,8 @@ theorem nl_tokLine {s : Str} (h : ∀ c ∈ s, c = ' ' ∨ tokChar c = true) : '
 theorem nl_showNat (n : Nat) : '\n' ∉ showNat n :=
   nl_tokLine (fun c hc => Or.inr (tokChar_showNat n c hc))
 
-theorem nl_meshTypeStr {sh : Shape} {dim : Nat} (hs : supported sh (dim : Int) (dim : Int) = true) :
-    '\n' ∉ meshTypeStr sh dim :=
+theorem nl_meshTypeStr {sh : Shape} {dim wdim : Nat} (hs : supported sh (dim : Int) (wdim : Int) = true) :
+    '\n' ∉ meshTypeStr sh dim wdim :=
   fun hm => (meshTypeStr_chars hs _ hm).2.2.2.1 rfl
 
 theorem nl_topoBlock (ind i : Nat) (t : List (List Nat)) : ∀ l ∈ topoBlock ind i t, '\n' ∉ l := by
@@ -903,8 +927,8 @@ theorem nl_topoBlocks (ind : Nat) (ts : List (List (List Nat))) :
     · exact nl_topoBlock ind k t l hl
     · exact ih (k + 1) l hl
 
-theorem nl_writeMesh {sh : Shape} {dim : Nat} (hs : supported sh (dim : Int) (dim : Int) = true) (m : Mesh) :
-    ∀ l ∈ writeMesh sh dim m, '\n' ∉ l := by
+theorem nl_writeMesh {sh : Shape} {dim wdim : Nat} (hs : supported sh (dim : Int) (wdim : Int) = true) (m : Mesh) :
+    ∀ l ∈ writeMesh sh dim wdim m, '\n' ∉ l := by
   intro l hl
   simp only [writeMesh, writeTopo_eq, List.mem_append, List.mem_cons, List.mem_map, List.not_mem_nil,
     or_false] at hl
@@ -931,18 +955,18 @@ theorem nl_writeMesh {sh : Shape} {dim : Nat} (hs : supported sh (dim : Int) (di
     exact nl_append h1 h3
 
 /-- the root line and the last line of a file with a root mesh only -/
-def rootLine (sh : Shape) (dim : Nat) : Str :=
-  "<FeatMeshFile version=\"1\"".toList ++ (" mesh=".toList ++ q (meshTypeStr sh dim)) ++ ">".toList
+def rootLine (sh : Shape) (dim wdim : Nat) : Str :=
+  "<FeatMeshFile version=\"1\"".toList ++ (" mesh=".toList ++ q (meshTypeStr sh dim wdim)) ++ ">".toList
 
-theorem writeLines_mesh (sh : Shape) (dim : Nat) (m : Mesh) :
-    writeLines sh dim { mesh := some m, parts := [], partitions := [] } =
-      rootLine sh dim :: (writeMesh sh dim m ++ ["</FeatMeshFile>".toList]) := by
+theorem writeLines_mesh (sh : Shape) (dim wdim : Nat) (m : Mesh) :
+    writeLines sh dim { mesh := some m, parts := [], partitions := [], wdim := wdim } =
+      rootLine sh dim wdim :: (writeMesh sh dim wdim m ++ ["</FeatMeshFile>".toList]) := by
   unfold writeLines rootLine
   dsimp only
   simp only [List.map_nil, List.flatten_nil, List.append_nil, List.cons_append, List.nil_append]
 
-theorem nl_writeLines {sh : Shape} {dim : Nat} (hs : supported sh (dim : Int) (dim : Int) = true) (m : Mesh) :
-    ∀ l ∈ writeLines sh dim { mesh := some m, parts := [], partitions := [] }, '\n' ∉ l := by
+theorem nl_writeLines {sh : Shape} {dim wdim : Nat} (hs : supported sh (dim : Int) (wdim : Int) = true) (m : Mesh) :
+    ∀ l ∈ writeLines sh dim { mesh := some m, parts := [], partitions := [], wdim := wdim }, '\n' ∉ l := by
   intro l hl
   rw [writeLines_mesh] at hl
   simp only [List.mem_cons, List.mem_append, List.not_mem_nil, or_false] at hl
@@ -956,94 +980,94 @@ theorem nl_writeLines {sh : Shape} {dim : Nat} (hs : supported sh (dim : Int) (d
   · decide
 
 /-- item (1): the scanner sees exactly the written lines, plus the final empty read -/
-theorem splitLines_print {sh : Shape} {dim : Nat} (hs : supported sh (dim : Int) (dim : Int) = true) (m : Mesh) :
-    splitLines (printMeshFile sh dim { mesh := some m, parts := [], partitions := [] }) =
-      rootLine sh dim :: (writeMesh sh dim m ++ ["</FeatMeshFile>".toList]) ++ [[]] := by
+theorem splitLines_print {sh : Shape} {dim wdim : Nat} (hs : supported sh (dim : Int) (wdim : Int) = true) (m : Mesh) :
+    splitLines (printMeshFile sh dim { mesh := some m, parts := [], partitions := [], wdim := wdim }) =
+      rootLine sh dim wdim :: (writeMesh sh dim wdim m ++ ["</FeatMeshFile>".toList]) ++ [[]] := by
   unfold splitLines printMeshFile
   rw [splitChar_flatMap '\n' _ (nl_writeLines hs m), writeLines_mesh]
 
 /-! ## Part 12: assembling the round trip -/
 
 /-- the scanned root markup -/
-def rootMarkup (sh : Shape) (dim : Nat) : Markup :=
-  ⟨"FeatMeshFile".toList, [("mesh".toList, meshTypeStr sh dim), ("version".toList, ['1'])], false, false⟩
+def rootMarkup (sh : Shape) (dim wdim : Nat) : Markup :=
+  ⟨"FeatMeshFile".toList, [("mesh".toList, meshTypeStr sh dim wdim), ("version".toList, ['1'])], false, false⟩
 
-theorem readRoot_print {sh : Shape} {dim : Nat} (hs : supported sh (dim : Int) (dim : Int) = true)
+theorem readRoot_print {sh : Shape} {dim wdim : Nat} (hs : supported sh (dim : Int) (wdim : Int) = true)
     (rest : List Str) :
-    readRoot (rootLine sh dim :: rest) 0 = .ok (rootMarkup sh dim, 1, rest) := by
-  have e : rootLine sh dim = sp 0 ++ '<' :: (("FeatMeshFile version=\"1\"".toList ++
-      (" mesh=".toList ++ q (meshTypeStr sh dim))) ++ ['>']) := by
+    readRoot (rootLine sh dim wdim :: rest) 0 = .ok (rootMarkup sh dim wdim, 1, rest) := by
+  have e : rootLine sh dim wdim = sp 0 ++ '<' :: (("FeatMeshFile version=\"1\"".toList ++
+      (" mesh=".toList ++ q (meshTypeStr sh dim wdim))) ++ ['>']) := by
     unfold rootLine
     simp [sp]
-  have htrim : trim (rootLine sh dim) = rootLine sh dim := by
+  have htrim : trim (rootLine sh dim wdim) = rootLine sh dim wdim := by
     conv => lhs; rw [e]
     rw [trim_markup_line, e]; simp [sp]
-  have hne : (rootLine sh dim).isEmpty = false := by rw [e]; simp
-  have hs' : scanMarkup (rootLine sh dim) = .ok (some (rootMarkup sh dim)) := scan_root_line hs
+  have hne : (rootLine sh dim wdim).isEmpty = false := by rw [e]; simp
+  have hs' : scanMarkup (rootLine sh dim wdim) = .ok (some (rootMarkup sh dim wdim)) := scan_root_line hs
   rw [readRoot]
   simp only [htrim, hne, hs', Bool.false_eq_true, if_false]
-  have h1 : (rootMarkup sh dim).closed = false := rfl
-  have h2 : (rootMarkup sh dim).termin = false := rfl
+  have h1 : (rootMarkup sh dim wdim).closed = false := rfl
+  have h2 : (rootMarkup sh dim wdim).termin = false := rfl
   simp only [h1, h2, Bool.or_self, Bool.false_eq_true, if_false]
 
-theorem rootType_print {sh : Shape} {dim : Nat} (hs : supported sh (dim : Int) (dim : Int) = true) (line : Nat) :
-    rootType line (rootMarkup sh dim) = .ok (some (sh, (dim : Int), (dim : Int))) := by
-  have a1 : attrOf (rootMarkup sh dim) "version" = some ['1'] := by
+theorem rootType_print {sh : Shape} {dim wdim : Nat} (hs : supported sh (dim : Int) (wdim : Int) = true) (line : Nat) :
+    rootType line (rootMarkup sh dim wdim) = .ok (some (sh, (dim : Int), (wdim : Int))) := by
+  have a1 : attrOf (rootMarkup sh dim wdim) "version" = some ['1'] := by
     have h1 : strLt "version".toList "mesh".toList = false := by decide
     have h2 : strLt "mesh".toList "version".toList = true := by decide
     have h3 : strLt "version".toList "version".toList = false := by decide
     unfold rootMarkup
     simp only [attrOf, mapFind, h1, h2, h3]; rfl
-  have a2 : attrOf (rootMarkup sh dim) "mesh" = some (meshTypeStr sh dim) := by
+  have a2 : attrOf (rootMarkup sh dim wdim) "mesh" = some (meshTypeStr sh dim wdim) := by
     have h1 : strLt "mesh".toList "mesh".toList = false := by decide
     unfold rootMarkup
     simp only [attrOf, mapFind, h1]; rfl
-  have hn : ((rootMarkup sh dim).name != "FeatMeshFile".toList) = false := by
+  have hn : ((rootMarkup sh dim wdim).name != "FeatMeshFile".toList) = false := by
     show ("FeatMeshFile".toList != "FeatMeshFile".toList) = false
     simp
   have hv : readInt ['1'] = some 1 := by decide
-  have hpos : ¬ (dim = 0) := by
-    rcases supported_cases hs with ⟨-, rfl⟩ | ⟨-, rfl⟩ | ⟨-, rfl⟩ | ⟨-, rfl⟩ | ⟨-, rfl⟩ <;> decide
+  have hpos : ¬ (dim = 0) := by have := supported_pos hs; omega
+  have hposw : ¬ (wdim = 0) := by have := supported_pos hs; omega
   have hsh : (if (sh.name == "simplex".toList) = true then some Shape.simplex
       else if (sh.name == "hypercube".toList) = true then some Shape.hyper else none) = some sh := by
     cases sh <;> decide
   unfold rootType
-  simp only [hn, a1, a2, hv, splitByColon_meshTypeStr hs, readInt_showNat_dim hs, hsh]
-  simp [hpos]
+  simp only [hn, a1, a2, hv, splitByColon_meshTypeStr hs, (readInt_showNat_dim hs).1, (readInt_showNat_dim hs).2, hsh]
+  simp [hpos, hposw]
 
 
-def emptyNode : Node := { mesh := none, parts := [], partitions := [] }
+def emptyNode (wdim : Nat) : Node := { mesh := none, parts := [], partitions := [], wdim := wdim }
 
 /-- the whole `<Mesh>` element: from the root frame to the root frame, with the mesh stored in the node -/
-theorem Run_writeMesh {sh : Shape} {dim : Nat} (hs : supported sh (dim : Int) (dim : Int) = true) (m : Mesh)
-    (hwf : m.wf sh dim = true) (h64 : ∀ s ∈ m.sizes, s < 2 ^ 64) (hzb : zeroBelow m.sizes = false) (b : Str) (below : List Str) :
-    Run (writeMesh sh dim m) (b :: below) (mkSt sh dim [Frame.root] emptyNode) (b :: below)
-      (mkSt sh dim [Frame.root] { mesh := some m, parts := [], partitions := [] }) := by
-  obtain ⟨hsz, hvl, hvr, htl, htp⟩ := (Mesh.wf_iff sh dim m).1 hwf
-  have hdim : 0 < dim ∧ dim ≤ 3 := by
-    rcases supported_cases hs with ⟨-, rfl⟩ | ⟨-, rfl⟩ | ⟨-, rfl⟩ | ⟨-, rfl⟩ | ⟨-, rfl⟩ <;> decide
+theorem Run_writeMesh {sh : Shape} {dim wdim : Nat} (hs : supported sh (dim : Int) (wdim : Int) = true) (m : Mesh)
+    (hwf : m.wf sh dim wdim = true) (h64 : ∀ s ∈ m.sizes, s < 2 ^ 64) (hzb : zeroBelow m.sizes = false) (b : Str) (below : List Str) :
+    Run (writeMesh sh dim wdim m) (b :: below) (mkSt sh dim [Frame.root] (emptyNode wdim)) (b :: below)
+      (mkSt sh dim [Frame.root] { mesh := some m, parts := [], partitions := [], wdim := wdim }) := by
+  obtain ⟨hsz, hvl, hvr, htl, htp⟩ := (Mesh.wf_iff sh dim wdim m).1 hwf
+  have hdim : 0 < dim ∧ dim ≤ 3 := ⟨(supported_pos hs).1, (supported_pos hs).2.1⟩
+  have hwdim : 0 < wdim := (supported_pos hs).2.2.1
   have hbound : m.sizes.getD 0 0 ≤ 2 ^ 64 := by
     cases hm : m.sizes with
     | nil => simp
     | cons a t => have := h64 a (by simp [hm]); simp; omega
   -- the `<Mesh …>` line
-  have e1 : sp 2 ++ "<Mesh type=".toList ++ q (meshTypeStr sh dim) ++ " size=".toList ++
+  have e1 : sp 2 ++ "<Mesh type=".toList ++ q (meshTypeStr sh dim wdim) ++ " size=".toList ++
       q (joinSp (m.sizes.map showNat)) ++ ">".toList =
-      sp 2 ++ '<' :: (('M' :: ("esh type=".toList ++ q (meshTypeStr sh dim) ++ " size=".toList ++
+      sp 2 ++ '<' :: (('M' :: ("esh type=".toList ++ q (meshTypeStr sh dim wdim) ++ " size=".toList ++
         q (joinSp (m.sizes.map showNat)))) ++ ['>']) := by
     simp
-  have hsc : scanMarkup ('<' :: (('M' :: ("esh type=".toList ++ q (meshTypeStr sh dim) ++ " size=".toList ++
+  have hsc : scanMarkup ('<' :: (('M' :: ("esh type=".toList ++ q (meshTypeStr sh dim wdim) ++ " size=".toList ++
         q (joinSp (m.sizes.map showNat)))) ++ ['>'])) =
       .ok (some (⟨"Mesh".toList, [("size".toList, joinSp (m.sizes.map showNat)),
-        ("type".toList, meshTypeStr sh dim)], false, false⟩ : Markup)) :=
+        ("type".toList, meshTypeStr sh dim wdim)], false, false⟩ : Markup)) :=
     scan_mesh_line hs m.sizes
   have r1 := Run_open_line (k := 2) (by decide) hsc rfl rfl
     (fun line => openM_mesh hs m.sizes hsz h64 hzb line) (b :: below)
   -- vertices
-  have r2 := Run_vertices_block sh dim m.sizes (List.replicate dim none) [Frame.root] emptyNode
-    "Mesh".toList (b :: below) m.verts hdim.1 hvl hvr
+  have r2 := Run_vertices_block sh dim m.sizes (List.replicate dim none) [Frame.root] (emptyNode wdim)
+    "Mesh".toList (b :: below) m.verts hwdim hvl hvr
   -- topology
-  have r3 := Run_topo_blocks sh dim 4 m.sizes (some m.verts) [Frame.root] emptyNode "Mesh".toList (b :: below)
+  have r3 := Run_topo_blocks sh dim 4 m.sizes (some m.verts) [Frame.root] (emptyNode wdim) "Mesh".toList (b :: below)
     hbound m.topo 0 [] rfl (by rw [htl]; have : (3 : Nat) < 2 ^ 64 := by decide
                                omega)
     (by
@@ -1055,7 +1079,7 @@ theorem Run_writeMesh {sh : Shape} {dim : Nat} (hs : supported sh (dim : Int) (d
   -- `</Mesh>`
   have e4 : "</Mesh>".toList = '<' :: (('/' :: "Mesh".toList) ++ ['>']) := by decide
   have r4 := Run_close_line (k := 2) (nm := "Mesh".toList) (by decide)
-    (fun line => closeTop_mesh_frame sh dim m.sizes m.verts m.topo [Frame.root] line) b below
+    (fun line => closeTop_mesh_frame sh dim wdim m.sizes m.verts m.topo [Frame.root] line) b below
   have hm : ({ sizes := m.sizes, verts := m.verts, topo := m.topo } : Mesh) = m := by cases m; rfl
   rw [hm] at r4
   have := Run.append (Run.append (Run.append r1 r2) r3) r4
@@ -1064,25 +1088,25 @@ theorem Run_writeMesh {sh : Shape} {dim : Nat} (hs : supported sh (dim : Int) (d
   simpa [emptyNode] using this
 
 
-theorem scanLoop_print {sh : Shape} {dim : Nat} (hs : supported sh (dim : Int) (dim : Int) = true) (m : Mesh)
-    (hwf : m.wf sh dim = true) (h64 : ∀ s ∈ m.sizes, s < 2 ^ 64) (hzb : zeroBelow m.sizes = false) (i : Nat) :
-    scanLoop meshClient (writeMesh sh dim m ++ ["</FeatMeshFile>".toList] ++ [[]]) i ["FeatMeshFile".toList]
-      (mkSt sh dim [Frame.root] emptyNode) =
-      .ok (mkSt sh dim [] { mesh := some m, parts := [], partitions := [] }) := by
+theorem scanLoop_print {sh : Shape} {dim wdim : Nat} (hs : supported sh (dim : Int) (wdim : Int) = true) (m : Mesh)
+    (hwf : m.wf sh dim wdim = true) (h64 : ∀ s ∈ m.sizes, s < 2 ^ 64) (hzb : zeroBelow m.sizes = false) (i : Nat) :
+    scanLoop meshClient (writeMesh sh dim wdim m ++ ["</FeatMeshFile>".toList] ++ [[]]) i ["FeatMeshFile".toList]
+      (mkSt sh dim [Frame.root] (emptyNode wdim)) =
+      .ok (mkSt sh dim [] { mesh := some m, parts := [], partitions := [], wdim := wdim }) := by
   obtain ⟨j, hj⟩ := Run_writeMesh hs m hwf h64 hzb "FeatMeshFile".toList [] (["</FeatMeshFile>".toList] ++ [[]]) i
   rw [List.append_assoc, hj]
   have e : "</FeatMeshFile>".toList = '<' :: (('/' :: "FeatMeshFile".toList) ++ ['>']) := by decide
   rw [e]
   exact final_close_line (by decide) (fun line => closeTop_root_frame sh dim _ line) _ j
 
-theorem parseBody_print {sh : Shape} {dim : Nat} (hs : supported sh (dim : Int) (dim : Int) = true) (m : Mesh)
-    (hwf : m.wf sh dim = true) (h64 : ∀ s ∈ m.sizes, s < 2 ^ 64) (hzb : zeroBelow m.sizes = false) (i : Nat) :
-    parseBody sh dim (rootMarkup sh dim) i (writeMesh sh dim m ++ ["</FeatMeshFile>".toList] ++ [[]]) =
-      .ok sh dim { mesh := some m, parts := [], partitions := [] } := by
-  have hc : checkAttribs i (specOf "root") (rootMarkup sh dim).attrs = .ok () := by
+theorem parseBody_print {sh : Shape} {dim wdim : Nat} (hs : supported sh (dim : Int) (wdim : Int) = true) (m : Mesh)
+    (hwf : m.wf sh dim wdim = true) (h64 : ∀ s ∈ m.sizes, s < 2 ^ 64) (hzb : zeroBelow m.sizes = false) (i : Nat) :
+    parseBody sh dim wdim (rootMarkup sh dim wdim) i (writeMesh sh dim wdim m ++ ["</FeatMeshFile>".toList] ++ [[]]) =
+      .ok sh dim { mesh := some m, parts := [], partitions := [], wdim := wdim } := by
+  have hc : checkAttribs i (specOf "root") (rootMarkup sh dim wdim).attrs = .ok () := by
     unfold rootMarkup
     simp [checkAttribs, specOf]
-  have hn : (rootMarkup sh dim).name = "FeatMeshFile".toList := rfl
+  have hn : (rootMarkup sh dim wdim).name = "FeatMeshFile".toList := rfl
   have hl := scanLoop_print hs m hwf h64 hzb i
   unfold mkSt emptyNode at hl
   unfold parseBody
@@ -1095,32 +1119,122 @@ end FeatModel.C11.RT
 
 namespace FeatModel.C11
 
-/-- **parse ∘ print = id** for a file with a root mesh (vertices and topology), all five mesh types -/
-theorem parse_print_mesh (sh : Shape) (dim : Nat) (m : Mesh)
-    (hs : supported sh (dim : Int) (dim : Int) = true)
-    (hwf : m.wf sh dim = true)
+/-- **parse ∘ print = id** for a file with a root mesh (vertices and topology), all nine mesh types
+    `(shape, shape dimension, world dimension)` - including surfaces in 3D and curves in 2D / 3D -/
+theorem parse_print_mesh (sh : Shape) (dim wdim : Nat) (m : Mesh)
+    (hs : supported sh (dim : Int) (wdim : Int) = true)
+    (hwf : m.wf sh dim wdim = true)
     (h64 : ∀ s ∈ m.sizes, s < 2 ^ 64)
     (hzb : zeroBelow m.sizes = false) :
-    parseMeshFile (printMeshFile sh dim { mesh := some m, parts := [], partitions := [] })
-      = .ok sh dim { mesh := some m, parts := [], partitions := [] } := by
+    parseMeshFile (printMeshFile sh dim { mesh := some m, parts := [], partitions := [], wdim := wdim })
+      = .ok sh dim { mesh := some m, parts := [], partitions := [], wdim := wdim } := by
   unfold parseMeshFile
   rw [RT.splitLines_print hs m, List.cons_append, RT.readRoot_print hs]
   simp only [RT.rootType_print hs, hs, Bool.not_true, Bool.false_eq_true, if_false, Int.toNat_natCast]
   exact RT.parseBody_print hs m hwf h64 hzb 1
 
 /-- **print ∘ parse ∘ print = print** (byte for byte) -/
-theorem print_parse_print_mesh (sh : Shape) (dim : Nat) (m : Mesh)
-    (hs : supported sh (dim : Int) (dim : Int) = true)
-    (hwf : m.wf sh dim = true)
+theorem print_parse_print_mesh (sh : Shape) (dim wdim : Nat) (m : Mesh)
+    (hs : supported sh (dim : Int) (wdim : Int) = true)
+    (hwf : m.wf sh dim wdim = true)
     (h64 : ∀ s ∈ m.sizes, s < 2 ^ 64)
     (hzb : zeroBelow m.sizes = false) :
-    ∀ sh' dim' n', parseMeshFile (printMeshFile sh dim { mesh := some m, parts := [], partitions := [] })
+    ∀ sh' dim' n', parseMeshFile (printMeshFile sh dim { mesh := some m, parts := [], partitions := [], wdim := wdim })
         = .ok sh' dim' n' →
-      printMeshFile sh' dim' n' = printMeshFile sh dim { mesh := some m, parts := [], partitions := [] } := by
+      printMeshFile sh' dim' n' = printMeshFile sh dim { mesh := some m, parts := [], partitions := [], wdim := wdim } := by
   intro sh' dim' n' h
-  rw [parse_print_mesh sh dim m hs hwf h64 hzb] at h
+  rw [parse_print_mesh sh dim wdim m hs hwf h64 hzb] at h
   injection h with h1 h2 h3
   subst h1 h2 h3
   rfl
+
+/-! ## The world dimension in the header, and its checks -/
+
+/-- the printed mesh type string: `conformal:<shape>:<shape dimension>:<world dimension>` -/
+theorem meshTypeStr_eq (sh : Shape) (dim wdim : Nat) :
+    meshTypeStr sh dim wdim =
+      "conformal:".toList ++ sh.name ++ ":".toList ++ showNat dim ++ ":".toList ++ showNat wdim := rfl
+
+/-- the first printed line of a node with a root mesh is the root line carrying the node's world dimension -/
+theorem writeLines_head (sh : Shape) (dim : Nat) (n : Node) (m : Mesh) (hm : n.mesh = some m) :
+    ∃ rest, writeLines sh dim n = RT.rootLine sh dim n.wdim :: rest := by
+  unfold writeLines RT.rootLine
+  rw [hm]
+  exact ⟨_, rfl⟩
+
+/-- the header field, semantically: the first line printed for a node with a root mesh scans to a markup whose
+    `mesh` attribute splits at the colons into `conformal`, the shape name, the SHAPE dimension and the node's WORLD
+    dimension, and `read_root_markup` reads exactly that triple from it (all nine supported mesh types) -/
+theorem printed_type_string (sh : Shape) (dim : Nat) (n : Node) (m : Mesh) (hm : n.mesh = some m)
+    (hs : supported sh (dim : Int) (n.wdim : Int) = true) :
+    ∃ (l : Str) (rest : List Str) (mk : Markup) (ty : Str),
+      writeLines sh dim n = l :: rest ∧ scanMarkup l = .ok (some mk) ∧ attrOf mk "mesh" = some ty ∧
+      splitByColon ty = ["conformal".toList, sh.name, showNat dim, showNat n.wdim] ∧
+      readInt (showNat dim) = some (dim : Int) ∧ readInt (showNat n.wdim) = some (n.wdim : Int) ∧
+      ∀ line, rootType line mk = .ok (some (sh, (dim : Int), (n.wdim : Int))) := by
+  obtain ⟨rest, hr⟩ := writeLines_head sh dim n m hm
+  refine ⟨_, rest, RT.rootMarkup sh dim n.wdim, meshTypeStr sh dim n.wdim, hr, RT.scan_root_line hs, ?_,
+    RT.splitByColon_meshTypeStr hs, (RT.readInt_showNat_dim hs).1, (RT.readInt_showNat_dim hs).2,
+    fun line => RT.rootType_print hs line⟩
+  have h1 : strLt "mesh".toList "mesh".toList = false := by decide
+  unfold RT.rootMarkup
+  simp only [attrOf, mapFind, h1]; rfl
+
+/-- `MeshParser::create`: a `<Mesh type="conformal:<shape>:<d>:<w'>" …>` whose world dimension `w'` is not the one of
+    the mesh type being parsed is a content error (the first three components being fine) -/
+theorem meshCreate_world_dim_mismatch (st : St) (line : Nat) (m : Markup) (ty sz a b c d : Str) (wd : Int)
+    (hty : attrOf m "type" = some ty) (hsz : attrOf m "size" = some sz)
+    (hsplit : splitByColon ty = [a, b, c, d]) (ha : a = "conformal".toList) (hb : b = st.shape.name)
+    (hc : readInt c = some (st.dim : Int)) (hd : readInt d = some wd) (hne : wd ≠ (st.wdim : Int)) :
+    meshCreate st line m = .error ⟨.content, line⟩ := by
+  unfold meshCreate
+  rw [hty, hsz]
+  simp only [hsplit, ha, hb, hc, hd]
+  simp [cErr, hne]
+
+/-- conversely, `MeshParser::create` only succeeds if the 3rd and 4th components of the `type` attribute read as the
+    shape dimension and the world dimension of the mesh type being parsed -/
+theorem meshCreate_ok_type {st : St} {line : Nat} {m : Markup} {f : Frame} (h : meshCreate st line m = .ok f) :
+    ∃ ty a b c d, attrOf m "type" = some ty ∧ splitByColon ty = [a, b, c, d] ∧ a = "conformal".toList ∧
+      b = st.shape.name ∧ readInt c = some (st.dim : Int) ∧ readInt d = some (st.wdim : Int) := by
+  unfold meshCreate at h
+  split at h
+  · rename_i ty sz hty hsz
+    split at h
+    · rename_i a b c d hsp
+      split at h
+      · simp [cErr] at h
+      · rename_i ha
+        split at h
+        · simp [cErr] at h
+        · rename_i hb
+          split at h
+          · simp [cErr] at h
+          · rename_i sd hc
+            split at h
+            · simp [cErr] at h
+            · rename_i hsd
+              split at h
+              · simp [cErr] at h
+              · rename_i wd hd
+                split at h
+                · simp [cErr] at h
+                · rename_i hwd
+                  refine ⟨ty, a, b, c, d, hty, hsp, by simpa using ha, by simpa using hb, ?_, ?_⟩
+                  · rw [hc]; simpa using hsd
+                  · rw [hd]; simpa using hwd
+    · simp [cErr] at h
+  · simp [gErr] at h
+
+/-- `VerticesParser::content`: a vertex line that does not have exactly `world_dim` coordinates is a content error -/
+theorem contentM_verts_wrong_coord_count (st : St) (line : Nat) (s : Str) (count : Nat) (acc : List (List Rat))
+    (rest : List Frame) (hs : st.stack = Frame.verts count acc :: rest) (hne : (splitWs s).length ≠ st.wdim) :
+    contentM st line s = .error ⟨.content, line⟩ := by
+  unfold contentM
+  rw [hs]
+  simp only
+  split
+  · rfl
+  · simp [cErr, hne]
 
 end FeatModel.C11
